@@ -28,7 +28,8 @@ META = {
                   "conjunction placement equal to an index-based specification, number/person/gender resolution equal to "
                   "declarative specifications, option propagation to exactly the legal members (table lifted from the "
                   "source), subject agreement through the shared record (order of realization modelled). Clauses the "
-                  "unchanged code violates are `_refuted` (concrete witness) + `_partial` (weakest side condition found).",
+                  "current code violates (nested coordinations, empty CP as subject, single nested coord) are `_refuted` "
+                  "(concrete witness) + `_partial` (weakest side condition found).",
     "level_note": "Trusted: Lean kernel; the hand-written model is tied to the code by the differential check only; members are "
                   "abstract (token list, type, pe/n/g as getProp returns them, own `a` option); elision across members, `en`/`ba` "
                   "options on members, pronominalized coordinations and histories (C11) are outside the model.",
@@ -218,13 +219,17 @@ def member_abstract(P, lang, nota, m, rel, ctx):
     return d
 
 
-def alone_text(P, lang, nota, m, rel, ctx):
-    """the member realized alone WITH its own options (for the oracle)"""
+def alone_text(P, lang, nota, m, rel, ctx, comma=False):
+    """the member realized alone WITH its own options (for the oracle); comma=True: the after-string of "," appended
+    to its last token"""
     key = ("txt", lang, nota, rel, core.canon(m), core.canon(ctx))
     if key not in _STATE:
         c2 = dict(ctx or {}, explicit=True)
-        _STATE[key] = norm(" ".join(toks_of(build_member(P, lang, nota, m, rel, c2))))
-    return _STATE[key]
+        _STATE[key] = toks_of(build_member(P, lang, nota, m, rel, c2))
+    toks = list(_STATE[key])
+    if comma and toks:
+        toks[-1] += after_table(lang)[COMMA]
+    return norm(" ".join(toks))
 
 
 def norm(x):
@@ -490,7 +495,8 @@ def resolve(lang, conj, fs):
     pe = min(f[0] for f in fs)
     pl = (len(fs) >= 2 and is_and(lang, conj)) or any(f[1] for f in fs)
     gs = [f[2] for f in fs]
-    g = "m" if "m" in gs else next((x for x in gs if x is not None), None)
+    # gender as the property states it: masculine as soon as one member is; feminine when all are; otherwise unknown
+    g = "m" if "m" in gs else ("f" if all(x == "f" for x in gs) else None)
     return pe, pl, g, all(f[3] for f in fs)
 
 
@@ -503,6 +509,7 @@ def expected_coord_text(P, case):
     rel = rel_of(case)
     ctx = subject_ctx(case)
     texts = [alone_text(P, lang, nota, m, rel, ctx) for m in case["members"]]
+    ctexts = [alone_text(P, lang, nota, m, rel, ctx, comma=True) for m in case["members"]]
     n = len(texts)
     if n == 0:
         return ""
@@ -515,7 +522,8 @@ def expected_coord_text(P, case):
             parts.append(conj)
         last_with_comma = n - 2 if conj is not None else n - 1
         own = case["members"][i].get("a") or []
-        parts.append(t + ("," if (i < last_with_comma and COMMA not in own) else ""))
+        # a member that realizes as nothing (an empty nested coordination) contributes nothing, not even a comma
+        parts.append(ctexts[i] if (i < last_with_comma and COMMA not in own and t != "") else t)
     return norm(" ".join(p for p in parts if p != ""))
 
 
@@ -525,42 +533,22 @@ def sig(clause, cause, case):
 
 def punct_cause(case):
     n = len(case["members"])
-    conj = case["conj"]
     if case["nota"] == "dep" and n == 1 and case["members"][0]["t"] == "nest":
         return "single-nested-coord-realized-as-plain-dependent"
-    lastc = n - 2 if conj is not None else n - 1
-    for i, m in enumerate(case["members"]):
-        if i < lastc and m.get("a") is not None:
-            if case["nota"] == "cp" and COMMA not in m["a"]:
-                return "member-own-after-punctuation-replaced-by-comma"
-            if case["nota"] == "dep" and COMMA not in m["a"]:
-                return "member-own-after-punctuation-suppresses-comma"
-            if case["nota"] == "dep" and m["a"] != [COMMA]:
-                return "member-own-after-punctuation-reset-to-comma"
     return "plain"
 
 
 def agree_cause(case):
     n = len(case["members"])
     if case["role"] == "attr":
-        return "attribute-coord-resets-person" if case["subj"]["pe"] != 3 else "plain"
-    if (case["conj"] is None and n >= 2) or any(m["t"] == "nest" and m["conj"] is None and len(m["ms"]) >= 2
-                                                 for m in case["members"]):
-        return "no-conjunction-no-resolution"
+        return "plain"
     if has_nested(case):
-        if n == 1:
-            return "single-nested"
-        return "nested-coordination-not-counted"
+        return "single-nested" if n == 1 else "nested-coordination-not-counted"
     return "plain"
 
 
 def crash_cause(case, err):
     ms = case["members"]
-
-    def strpe(m):
-        return (m["t"] == "pro" and isinstance(m["pe"], str)) or (m["t"] == "nest" and any(strpe(k) for k in m["ms"]))
-    if err == "TypeError" and any(strpe(m) for m in ms):
-        return "TypeError-person-given-as-string"
     if err == "AttributeError" and case["nota"] == "cp" and not ms and case["conj"] is None and case["role"] in ("subj", "subjattr"):
         return "AttributeError-empty-CP-as-subject"
     return err + "-plain"
@@ -681,7 +669,9 @@ def impl_opt(case):
         set_lang(P, lang)
         co = build_tree(P, lang, nota, tree)
         try:
+            cnt["n"] = 0
             getattr(co, name)(val)
+            nwarn = cnt["n"]
         except Exception as e:  # noqa
             return [], {"err": type(e).__name__}, [(sig("crash", type(e).__name__ + "-option", case), "option call raised")]
 
@@ -700,6 +690,12 @@ def impl_opt(case):
         got = {}
         walk(co, tree, "", got)
         ans = {"recv": got}
+        if name not in ("cap", "lier", "pos"):
+            # a propagated option is only ever handed to members it is legal for: nobody warns
+            ans["w"] = nwarn
+            if nwarn:
+                fails.append((sig("option", "%s-handed-to-an-illegal-member" % name, case),
+                              "%d warning(s) while propagating .%s() through %r" % (nwarn, name, tree)))
         # oracle: a leaf member receives the option iff the option is legal for it (direct call accepted, no warning)
         if name not in ("cap", "lier", "pos"):
             for i, t in enumerate(tree[2]):
@@ -736,7 +732,10 @@ def model_opt_expected(case, run_model):
             else:
                 out[p] = got
     walk(tree, "", True)
-    return {"recv": out}
+    res = {"recv": out}
+    if name not in ("cap", "lier", "pos"):
+        res["w"] = 0
+    return res
 
 
 # --------------------------------------------------------------------------------------------- generation
@@ -935,6 +934,9 @@ def gen_opt_cases(ctx, total):
                     kids.append(tree(d + 1))
                 else:
                     kids.append(rng.choice(leaves))
+            if nota == "cp" and "N" in kids:
+                # Phrase.add moves an A across adjacent bare N's (any phrase, CP included): keep them apart
+                kids = ["AP" if k == "A" else k for k in kids]
             return ["CP", rng.choice(CONJ[lang][:2] + [None]), kids]
         cases.append({"kind": "opt", "lang": lang, "nota": nota, "name": name, "tree": tree(0)})
     return cases
@@ -1003,7 +1005,6 @@ def run(ctx, deep=False):
             raise core.Infra("driver error: %s on %s" % (a["driver_error"], k[:200]))
         opt_cache[k] = a
     dist = {}
-    known = {(k["property"], k["match"]) for k in core.load_known().get("findings", [])}
     mi = 0
     for kind, case, payload in results:
         cls = case_class(case)
